@@ -972,9 +972,23 @@ def gen_pending(loader, check, replay_on=True):
         check.ob_filter = saved
 
 
+def gen_divmod_emission(loader, check, replay_on=True):
+    """/= and %= build an ArithmeticOp over the (differently typed) target and source: the emitted operator is the signed or the
+    unsigned RzIL division according to the node's own type (the emission contract of C01's division section)"""
+    from . import c01
+    saved = getattr(check, "ob_filter", None)
+    check.ob_filter = r"ArithmeticOp\.il_exec"
+    try:
+        c01.gen_division(loader, check, replay_on, types=[(True, 32), (False, 64)])
+    finally:
+        check.ob_filter = saved
+
+
 def gen_task(loader, check, what, replay_on=True, **kw):
     if what == "assign":
         gen_assignments(loader, check, replay_on, **kw)
+    elif what == "divmod":
+        gen_divmod_emission(loader, check, replay_on)
     elif what == "pending":
         gen_pending(loader, check, replay_on)
     else:
@@ -983,7 +997,7 @@ def gen_task(loader, check, what, replay_on=True, **kw):
 
 
 def generate_reduced(loader, check):
-    for w in ("sequence", "effects", "stmts", "flatten", "chained", "pending"):
+    for w in ("sequence", "effects", "stmts", "flatten", "chained", "pending", "divmod"):
         gen_task(loader, check, w, False)
     gen_assignments(loader, check, False, ops=[("=", None), ("-=", "-"), ("^=", "^"), ("<<=", "<<")], dtypes=[(True, 32), (False, 64)], stypes=[(True, 32), (False, 8)])
 
@@ -996,7 +1010,7 @@ def run(check: Check):
     check.trust("T-IND: statement nesting by structural induction (callbacks only see their children's effects as opaque values)")
     check.assume("A-NAMES: add_op through its contract; chk_hybrid_dep with an empty pending table (pending side effects are C06's)")
     check.assume("C-side UB excluded: shift counts in range, divisor non-zero")
-    tasks = [{"what": w} for w in ("sequence", "effects", "stmts", "flatten", "chained", "pending")]
+    tasks = [{"what": w} for w in ("sequence", "effects", "stmts", "flatten", "chained", "pending", "divmod")]
     for op in ASSIGN_OPS:
         tasks.append({"what": "assign", "ops": [list(op)]})
     check.run_parallel("contracts.c05", "gen_task", tasks, workers=WORKERS)
